@@ -38,7 +38,7 @@ ASSUMPTIONS = [
     "io theorems: counter names are words without ':' and each appears on one line; junk lines contain no ': '",
 ]
 MANIFEST = {
-    "level_text": "Machine-checked Lean 4 proofs over a model of _pslinux.Process.open_files/num_fds/io_counters, readlink() and file_flags_to_mode(): the mode string is the documented function of O_ACCMODE x O_APPEND for EVERY flag word (other bits proved irrelevant, total including access mode 3), open_files over the kernel-rendered descriptor table equals the list of still-open regular absolute descriptors for ALL tables (induction; pos decimal, flags octal round trip for all naturals), closing descriptors (either stage, ENOENT/ESRCH, any subset) never fail a live process, a vanished process gives NoSuchProcess, num_fds = table length, io_counters returns the six kernel counters under the documented names for all values and tolerates blank / junk / unknown / non-numeric extra lines. Tied to the code by 26 translator facts consumed by the proof obligation cfg_good and by a differential run of the real front-end methods on a fake procfs (exhaustive over all 4096 low flag words, both through file_flags_to_mode and end to end).",
+    "level_text": "Machine-checked Lean 4 proofs over a model of _pslinux.Process.open_files/num_fds/io_counters, readlink() and file_flags_to_mode(): the mode string is the documented function of O_ACCMODE x O_APPEND for EVERY flag word (other bits proved irrelevant, total including access mode 3), open_files over the kernel-rendered descriptor table equals the list of still-open regular absolute descriptors for ALL tables (induction; pos decimal, flags octal round trip for all naturals), closing descriptors (before readlink, before the open of fdinfo, or after it at the first/second read; ENOENT/ESRCH; any subset) never fail a live process, a vanished process gives NoSuchProcess, num_fds = table length, io_counters returns the six kernel counters under the documented names for all values and tolerates blank / junk / unknown / non-numeric extra lines. Tied to the code by 28 translator facts consumed by the proof obligation cfg_good and by a differential run of the real front-end methods on a fake procfs (exhaustive over all 4096 low flag words, both through file_flags_to_mode and end to end).",
     "level_note": "Trusted: Lean kernel + {propext, Classical.choice, Quot.sound}; the translator; the correspondence harness; kernel formats as written in Spec/C14.lean; CPython int/split/strip/replace as modelled; no EACCES from stat; no zombie state.",
     "technique": "Lean 4 proofs (finite case analysis on flags via bit lemmas, list induction over tables, round trip of decimal/octal renderers) + translator-fed proof obligation + differential correspondence on a fake procfs",
     "design_ref": "DESIGN.md §5 C14",
@@ -158,7 +158,7 @@ class Impl:
         fp.write("%d/stat" % PID, self.stat_line())
         fp.mkdir("%d/fd" % PID)
         fp.mkdir("%d/fdinfo" % PID)
-        plan = {"readlink_err": {}, "readlink_text": {}, "open_err": {}, "order": []}
+        plan = {"readlink_err": {}, "readlink_text": {}, "open_err": {}, "read_err": {}, "order": []}
         base = fp.path("%d" % PID)
         for e in entries:
             name = bytes.fromhex(e["name"]).decode("utf-8", "surrogateescape")
@@ -185,6 +185,10 @@ class Impl:
             if "ok" in info:
                 with open(infopath, "wb") as f:
                     f.write(bytes.fromhex(info["ok"]))
+                if info.get("read_err"):
+                    # the file opens; its 1st / 2nd read fails (descriptor closed after the open)
+                    plan["read_err"][infopath] = (1 if info["read_err"]["second"] else 0,
+                                                  getattr(errno, info["read_err"]["errno"]))
             elif info["err"] == "ESRCH":
                 with open(infopath, "wb") as f:
                     f.write(b"pos:\t0\nflags:\t00\n")
@@ -193,6 +197,8 @@ class Impl:
         if io is not None:
             if "ok" in io:
                 fp.write("%d/io" % PID, bytes.fromhex(io["ok"]))
+                if io.get("read_err"):
+                    plan["read_err"]["%s/io" % base] = (int(io["read_err"].get("at", 0)), getattr(errno, io["read_err"]["errno"]))
             elif io["err"] == "ESRCH":
                 fp.write("%d/io" % PID, b"")
                 plan["open_err"]["%s/io" % base] = errno.ESRCH
@@ -243,7 +249,7 @@ class Impl:
 
         def fake_stat(path, *a, **kw):
             # `_raise_if_not_alive` looks at /proc/<pid>: the process is reaped right before
-            if gone_after and path == base:
+            if gone_after and path in (base, base + "/stat"):
                 shutil.rmtree(base, ignore_errors=True)
             return real_stat(path, *a, **kw)
 
@@ -251,7 +257,11 @@ class Impl:
             if isinstance(file, str) and file in plan["open_err"] and os.path.lexists(base):
                 en = plan["open_err"][file]
                 raise OSError(en, os.strerror(en), file)
-            return real_open(file, *a, **kw)
+            f = real_open(file, *a, **kw)
+            if isinstance(file, str) and file in plan["read_err"] and os.path.lexists(base):
+                k, en = plan["read_err"][file]
+                return FaultyFile(f, k, en, file)
+            return f
 
         self.common.open = fake_open
         try:
@@ -285,6 +295,50 @@ class Impl:
                 del self.common.open
             except AttributeError:
                 pass
+
+
+class FaultyFile:
+    """An opened procfs file whose k-th read operation (0-based; readline / read / readlines /
+    iteration step alike) fails with `en`, as the kernel does once the descriptor / task behind
+    an already opened /proc file is gone. Everything else is the real file object."""
+
+    def __init__(self, f, k, en, name):
+        self._f, self._k, self._en, self._name, self._n = f, k, en, name, 0
+
+    def _tick(self):
+        n = self._n
+        self._n += 1
+        if n >= self._k:
+            raise OSError(self._en, os.strerror(self._en), self._name)
+
+    def readline(self, *a):
+        self._tick()
+        return self._f.readline(*a)
+
+    def read(self, *a):
+        self._tick()
+        return self._f.read(*a)
+
+    def readlines(self, *a):
+        self._tick()
+        return self._f.readlines(*a)
+
+    def __iter__(self):
+        return self
+
+    def __next__(self):
+        self._tick()
+        return next(self._f)
+
+    def __enter__(self):
+        self._f.__enter__()
+        return self
+
+    def __exit__(self, *exc):
+        return self._f.__exit__(*exc)
+
+    def __getattr__(self, name):
+        return getattr(self._f, name)
 
 
 # ------------------------------------------------------------------------------ cases → driver lines
@@ -482,7 +536,10 @@ def run_io_items(ctx, impl, cases, res):
 def run_io_raws(ctx, impl, cases, res):
     if not cases:
         return 0
-    outs = ctx.driver().batch([{"op": "io_raw", "alive": c.get("alive", True), "file": c["file"]} for c in cases])
+    def model_file(fr):
+        # an exception out of the read loop propagates exactly like one out of open()
+        return {"err": fr["read_err"]["errno"]} if fr.get("read_err") else fr
+    outs = ctx.driver().batch([{"op": "io_raw", "alive": c.get("alive", True), "file": model_file(c["file"])} for c in cases])
     for c, o in zip(cases, outs):
         if "bad" in o:
             raise RuntimeError("driver rejected %r: %s" % (c, o))
@@ -509,7 +566,7 @@ def table_features(case, out):
         if k["t"] == "regular" and k.get("deleted"):
             f.add("deleted-suffix")
         if d.get("closes"):
-            f.add("closes-%s-%s" % (d["closes"]["stage"], d["closes"]["errno"]))
+            f.add("closes-%s%s-%s" % (d["closes"]["stage"], "-2nd" if d["closes"].get("second") else "", d["closes"]["errno"]))
         if d["flags"] & 3 == 3:
             f.add("accmode3")
         if d["flags"] & O_APPEND:
@@ -591,7 +648,11 @@ def gen_kind(rng, allow_ambiguous=True):
 def gen_closes(rng, p):
     if rng.random() >= p:
         return None
-    return {"stage": rng.choice(["readlink", "fdinfo"]), "errno": rng.choice(["ENOENT", "ESRCH"])}
+    st = rng.choice(["readlink", "fdinfo", "fdinfo_read"])
+    c = {"stage": st, "errno": rng.choice(["ENOENT", "ESRCH"])}
+    if st == "fdinfo_read":
+        c["second"] = rng.random() < 0.4
+    return c
 
 
 def gen_table(rng, family):
@@ -678,6 +739,8 @@ def gen_raw(rng):
             info = {"ok": (b"pos:\t%d\nflags:\t0%o\n" % (gen_pos(rng), gen_flags(rng))).hex()}
         else:
             info = {"err": rng.choice(["ENOENT", "ESRCH"])}
+        if "ok" in info and rng.random() < 0.15:
+            info["read_err"] = {"second": rng.random() < 0.5, "errno": rng.choice(["ENOENT", "ESRCH"])}
         entries.append({"name": name.hex(), "link": link, "info": info})
     case = {"family": "malformed", "entries": entries}
     r = rng.random()
@@ -748,6 +811,9 @@ IO_RAW = [
     ("missing-file-alive", {"file": {"err": "ENOENT"}, "alive": True}),
     ("missing-file-gone", {"file": {"err": "ENOENT"}, "alive": False}),
     ("esrch-on-open", {"file": {"err": "ESRCH"}, "alive": True}),
+    ("read-enoent-alive", {"file": {"ok": b"rchar: 1\nwchar: 2\n".hex(), "read_err": {"at": 0, "errno": "ENOENT"}}, "alive": True}),
+    ("read-esrch-alive", {"file": {"ok": b"rchar: 1\nwchar: 2\n".hex(), "read_err": {"at": 0, "errno": "ESRCH"}}, "alive": True}),
+    ("read-esrch-midfile", {"file": {"ok": b"rchar: 1\nwchar: 2\nsyscr: 3\n".hex(), "read_err": {"at": 2, "errno": "ESRCH"}}, "alive": True}),
     ("empty", {"file": {"ok": ""}, "alive": True}),
     ("only-newlines", {"file": {"ok": b"\n\n\n".hex()}, "alive": True}),
     ("no-final-newline", {"file": {"ok": b"rchar: 1\nwchar: 2\nsyscr: 3\nsyscw: 4\nread_bytes: 5\nwrite_bytes: 6".hex()}, "alive": True}),
@@ -777,6 +843,10 @@ def corpus_tables():
             {"n": 4, "kind": reg, "pos": 1, "flags": 2, "tail": "", "closes": {"stage": "fdinfo", "errno": "ESRCH"}},
             {"n": 5, "kind": reg, "pos": 1, "flags": 2, "tail": "", "closes": {"stage": "fdinfo", "errno": "ENOENT"}},
             {"n": 6, "kind": reg, "pos": 1, "flags": 2, "tail": "", "closes": {"stage": "readlink", "errno": "ENOENT"}},
+            {"n": 8, "kind": reg, "pos": 1, "flags": 2, "tail": "", "closes": {"stage": "fdinfo_read", "second": False, "errno": "ENOENT"}},
+            {"n": 9, "kind": reg, "pos": 1, "flags": 2, "tail": "", "closes": {"stage": "fdinfo_read", "second": True, "errno": "ENOENT"}},
+            {"n": 10, "kind": reg, "pos": 1, "flags": 2, "tail": "", "closes": {"stage": "fdinfo_read", "second": False, "errno": "ESRCH"}},
+            {"n": 11, "kind": reg, "pos": 1, "flags": 2, "tail": "", "closes": {"stage": "fdinfo_read", "second": True, "errno": "ESRCH"}},
             {"n": 7, "kind": reg, "pos": 2 ** 63, "flags": 0o102002, "tail": "", "closes": None}],
          "gone_before": False, "dies_at": None},
         {"family": "corpus-dies", "fds": [
